@@ -273,9 +273,9 @@ func run(c *core.Ctx) {
 		want := outcome(d.Format, bytes.NewReader(d.Data))
 		bound := 1
 		if c.Tier == core.Thorough {
-			if len(d.Data) <= 60 {
+			if len(d.Data) <= 130 {
 				bound = 3
-			} else if len(d.Data) <= 400 {
+			} else if len(d.Data) <= 2000 {
 				bound = 2
 			}
 		}
@@ -413,7 +413,7 @@ func init() {
 		Rule: "the io.Reader is modelled as an environment whose every Read(p) is a choice point (states = distinct (offset, len(p)) choice points reached; transitions = answers given: full delivery, every shorter delivery 1..n-1, (0,nil), data together with io.EOF); every schedule with <= B deviations from 'deliver everything asked for' is executed on the real reader of every corpus document and its canonical result (or the fact of failing) compared with the all-at-once result; plus fixed schedules (1..1024-byte chunks, halves, increasing, data-with-EOF, alternating zero-length reads) and CRLF pairs aligned to 4096/8192/65536 buffer boundaries in generated large documents",
 		Scope: map[core.Tier]string{
 			core.Quick:    "all 54 corpus documents (hand-made + /repo/testdata, valid and invalid, LF/CRLF/CR, STL with 0..3 TTI, TTML, TS when available): every schedule with <=1 deviation (= every single split point, exhaustive) + 20 fixed schedules; 45 large documents x all-at-once and +-2 around every 4096 multiple",
-			core.Thorough: "additionally <=2 deviations for documents <=400 bytes and <=3 for <=60 bytes",
+			core.Thorough: "additionally <=2 deviations for documents <=2000 bytes and <=3 for <=130 bytes",
 		},
 		Assumptions: []string{"Go toolchain and standard library (bufio, encoding/xml)", "astits for the transport-stream layer", "results compared through the canonical dump (engine/props/dump)"},
 		Plain:       run, Replay: replay,
